@@ -62,6 +62,36 @@ inline auto free1(int x, int& r, Tracked const& c, TrackedMoveOnly&& m) -> int {
 
 inline auto free2(int x, int& r, Tracked const& c, TrackedMoveOnly&& m) -> int { return target_body(902, g_freeCount[2], x, r, c, static_cast<TrackedMoveOnly&&>(m)); }
 
+// an EMPTY class with non-trivial special members: it has no bytes to copy, but it is still an object that has to be
+// constructed, copied, moved and destroyed (it registers by address)
+inline int g_emptyCount = 0;
+
+struct EmptyFn {
+    EmptyFn() { reg().on_construct(this); }
+
+    EmptyFn(EmptyFn const& o)
+    {
+        reg().need_live(&o, "copy-from-dead");
+        reg().on_construct(this);
+    }
+
+    EmptyFn(EmptyFn&& o) noexcept
+    {
+        reg().need_live(&o, "move-from-dead");
+        reg().on_construct(this);
+    }
+
+    ~EmptyFn() { reg().on_destroy(this); }
+
+    auto operator()(int x, int& r, Tracked const& c, TrackedMoveOnly&& m) const -> int
+    {
+        reg().need_live(this, "call-on-dead");
+        return target_body(600, g_emptyCount, x, r, c, static_cast<TrackedMoveOnly&&>(m));
+    }
+};
+
+static_assert(std::is_empty_v<EmptyFn>);
+
 // trivially copyable, stateful
 struct SmallFn {
     int id;
@@ -326,6 +356,7 @@ struct FnDriver : DriverBase<FnDriver<Cap, Align>> {
         g_calls.clear();
         int ret = 0;
         int const freeBefore[3] = {g_freeCount[0], g_freeCount[1], g_freeCount[2]};
+        int const emptyBefore   = g_emptyCount;
         bool const empty        = !m.has_value();
         if (empty && !misuse) {
             skip();
@@ -350,6 +381,8 @@ struct FnDriver : DriverBase<FnDriver<Cap, Align>> {
         if (m->kind == 0) {
             int const fi = m->id - 900;
             wantCount    = freeBefore[fi] + 1;
+        } else if (m->kind == 4) {
+            wantCount = emptyBefore + 1; // the empty callable counts in a global: it has no state of its own
         } else {
             wantCount = m->count + 1;
             m->count  = wantCount;
@@ -387,6 +420,19 @@ struct FnDriver : DriverBase<FnDriver<Cap, Align>> {
         bool const wasEmpty = !m.has_value();
         if (op == "call") {
             do_call(a);
+            return;
+        }
+        if (op == "assign_callable" && st.k[1] % 5 == 0) {
+            // an empty class type with non-trivial special members as the target
+            bool ok = call(a, false, false, [&] { f = EmptyFn{}; });
+            if (ok) {
+                m = TargetModel{4, 600, 0};
+                ++ctx.stateChanging;
+                if (wasEmpty) {
+                    ++ctx.boundaryEvents;
+                }
+                SIM_COUNT("reach.empty_class_callable");
+            }
             return;
         }
         if (op == "assign_callable") {
@@ -568,6 +614,7 @@ struct FnDriver : DriverBase<FnDriver<Cap, Align>> {
         ctx.op   = "create";
         // every piece of state a run can read is reset here: a run is a function of its plan only
         g_freeCount[0] = g_freeCount[1] = g_freeCount[2] = 0;
+        g_emptyCount                                     = 0;
         g_calls.clear();
         for (int s = 0; s < pool; ++s) {
             void* mem = raw(s);
@@ -608,6 +655,43 @@ struct FnDriver : DriverBase<FnDriver<Cap, Align>> {
 // ================================================================================================ reference-like wrappers
 // function_ref, reference_wrapper, bind_front, not_fn, invoke: they refer to (or own a copy of) one of three stateful
 // targets; every call must reach the right instance exactly once.
+// an element type with its own swap (found by argument-dependent lookup): pair / tuple swap their elements through it,
+// as std::pair does - never by the generic move-construct-and-assign
+inline int g_adlSwaps = 0;
+
+struct Swappy {
+    int v = 0;
+
+    Swappy() = default;
+
+    Swappy(int x) // NOLINT
+        : v(x)
+    {
+    }
+
+    explicit operator long long() const { return v; }
+
+    friend void swap(Swappy& a, Swappy& b) noexcept
+    {
+        ++g_adlSwaps;
+        int const t = a.v;
+        a.v         = b.v;
+        b.v         = t;
+    }
+
+    friend auto operator==(Swappy const& a, Swappy const& b) -> bool { return a.v == b.v; }
+
+    friend auto operator!=(Swappy const& a, Swappy const& b) -> bool { return a.v != b.v; }
+
+    friend auto operator<(Swappy const& a, Swappy const& b) -> bool { return a.v < b.v; }
+
+    friend auto operator>(Swappy const& a, Swappy const& b) -> bool { return a.v > b.v; }
+
+    friend auto operator<=(Swappy const& a, Swappy const& b) -> bool { return a.v <= b.v; }
+
+    friend auto operator>=(Swappy const& a, Swappy const& b) -> bool { return a.v >= b.v; }
+};
+
 // a three-valued truth type: operator! keeps "unknown" unknown; converts to bool implicitly
 struct Tri {
     int state; // 0 no, 1 yes, 2 unknown
@@ -1336,6 +1420,7 @@ struct PairDriver : DriverBase<PairDriver<A, B>> {
             if (a == b) {
                 SIM_COUNT("F6.self_swap");
             }
+            int const adlBefore = g_adlSwaps;
             bool ok = call(a, false, false, [&] {
                 if (st.k[0] % 2 == 0) {
                     p.swap(*obj[b]);
@@ -1345,6 +1430,11 @@ struct PairDriver : DriverBase<PairDriver<A, B>> {
                 }
             });
             if (ok) {
+                if constexpr (std::is_same_v<A, Swappy>) {
+                    if (g_adlSwaps - adlBefore != 1) {
+                        ctx.violation("C20", "diff:pair:element-swap-not-used", "pair::swap did not exchange the element through the element type's own swap (" + std::to_string(g_adlSwaps - adlBefore) + " calls)");
+                    }
+                }
                 if (a != b) {
                     std::swap(model[a], model[b]);
                     ++ctx.boundaryEvents;
@@ -1837,6 +1927,7 @@ void register_fn_1()
     add<PairDriver<sim::Tracked, sim::Tracked>>("pair<Tracked,Tracked>", {"C20", "C03"});
     add<PairDriver<int, sim::TrackedOA>>("pair<int,TrackedOA>", {"C20", "C03"}); // over-aligned second element
     add<PairDriver<sim::Coarse, int>>("pair<Coarse,int>", {"C20"});             // operator< coarser than operator==
+    add<PairDriver<Swappy, int>>("pair<Swappy,int>", {"C20"});                   // element with its own ADL swap
     add<PairDriver<sim::TrackedMoveOnly, sim::Tracked>>("pair<TrackedMoveOnly,Tracked>", {"C20", "C03"});
     add<PairDriver<sim::TrackedCopyOnly, sim::TrackedB>>("pair<TrackedCopyOnly,TrackedB>", {"C20", "C03"});
     add<TupleDriver<int, int, int>>("tuple<int,int,int>", {"C20"});
